@@ -52,10 +52,13 @@ Unlock == /\ E.ev = "unlock"
 Ret   == /\ E.ev = "ret"   /\ Step(P!MonRet(mon, E.ok, E.n, E.kind), cnt)
 Panic == /\ E.ev = "panic" /\ Step(P!MonPanic(mon), cnt)
 Stats == /\ E.ev = "stats" /\ Step(mon, P!CntStats(cnt, E.bs, E.ps, E.bd, E.pd))
+\* C14 under heavy contention: the tallies of many threads on one unbuffered sink (Ok / Err results and bytes)
+Bulk  == /\ E.ev = "bulk"
+         /\ Step(mon, [cnt EXCEPT !.okPk = @ + E.okn, !.okBy = @ + E.okb, !.erPk = @ + E.ern, !.erBy = @ + E.erb])
 \* implementation-state snapshots are for the replay comparison, not for the monitor
 Skip  == /\ E.ev \in {"st", "note"} /\ Step(mon, cnt)
 
-Next == l <= Len(Rec) /\ (Reset \/ Call \/ Att \/ AttHidden \/ Ret \/ Panic \/ Stats \/ Skip \/ Lock \/ Unlock)
+Next == l <= Len(Rec) /\ (Reset \/ Call \/ Att \/ AttHidden \/ Ret \/ Panic \/ Stats \/ Skip \/ Lock \/ Unlock \/ Bulk)
 Spec == Init /\ [][Next]_vars
 
 \* printed exactly once, in the state that has consumed the whole trace
